@@ -205,7 +205,7 @@ def run_one(prop, tier, run, idx, shard, nshards, base_seed, scratch, replay=Non
         res["result"] = "ok"
         return res
     if rc < 0 or "panic: test timed out" in out or "signal: killed" in out or "cannot allocate memory" in out \
-            or "out of memory" in out:
+            or "out of memory" in out or "VERIF-INFRA:" in out:
         res["result"] = "infra"
         res["why"] = "timeout/killed (rc=%d)" % rc
         return res
